@@ -74,7 +74,7 @@ var c02UnaryOps = []string{"Double", "Negate", "Add(self)", "Subtract(self)", "A
 
 // C02real checks the group law on all ordered pairs of the representation alphabet of the real curve.
 func C02real(r *ev.Report) {
-	nLam := 3
+	nLam := 8
 	if ev.Thorough() {
 		nLam = 0
 	}
